@@ -9,7 +9,7 @@ comparison mode; identity of reported old/new; agreement of the mechanisms.
 import numpy as np
 from hypothesis import strategies as st
 
-from traits.api import (HasTraits, Any, Int, Str, List, Instance, Event, Float, TraitError, CInt,
+from traits.api import (HasTraits, Any, Int, Str, List, Instance, Event, Float, TraitError, CInt, observe,
                         push_exception_handler, pop_exception_handler)
 from traits.trait_base import Undefined
 from traits.observation.api import (push_exception_handler as obs_push, pop_exception_handler as obs_pop)
@@ -84,13 +84,25 @@ def mk(kind, mode):
 BARE = ("any_e", "any_i", "int_e", "list_i", "event_e", "str_n")
 
 
-def build(raisers, log, bare=False, sub=False):
+MAGIC = ("int_e", "any_n", "str_i")        # names whose `_<name>_changed` in the base class is an @observe-decorated method
+
+
+def build(raisers, log, bare=False, sub=False, magic=False):
     ns = {}
     for nm in NAMES:
         kind, mode = nm.split("_")
         kind = {"any": "Any", "int": "Int", "str": "Str", "list": "List", "inst": "Inst", "event": "Event", "float": "Float", "cevent": "CEvent"}[kind]
         ns[nm] = mk(kind, mode)
         if bare and nm in BARE:
+            continue
+        if magic and nm in MAGIC:
+            # a handler with the MAGIC NAME but declared with @observe: it is an observer, not also a static handler
+            def mkmagic(nm):
+                def h(self, event):
+                    log.append(("magic", nm, event.old, event.new))
+                h.__name__ = "_%s_changed" % nm
+                return observe(nm)(h)
+            ns["_%s_changed" % nm] = mkmagic(nm)
             continue
 
         def mkstatic(nm):
@@ -115,6 +127,8 @@ def build(raisers, log, bare=False, sub=False):
         over = {"int_n": 5, "int_i": 5, "int_e": 5, "str_n": "d", "str_i": "d", "any_n": None, "any_i": 1, "float_n": 1.5,
                 "float_i": 1.5}
         cls = type("CSub", (cls,), over)
+    if magic:
+        cls = type("CMagicSub", (cls,), {})        # the object is of a SUBCLASS that does not redefine the handlers
     return cls
 
 
@@ -137,6 +151,7 @@ def strategy(tier):
         "object_level": st.sampled_from([None, None, "plain", "oneshot", "oneshot-raising"]),
         "bare": st.sampled_from([False, False, True]),
         "sub_defaults": st.sampled_from([False, False, True]),
+        "magic": st.sampled_from([False, False, True]),
         "ops": st.lists(op_strategy(), min_size=1, max_size=30),
     })
 
@@ -150,7 +165,10 @@ def run(case, ctx):
     log = []
     raisers = set(case["raisers"])
     bare = bool(case.get("bare"))
-    cls = build(raisers, log, bare, bool(case.get("sub_defaults")))
+    magic = bool(case.get("magic")) and not bare
+    cls = build(raisers, log, bare, bool(case.get("sub_defaults")), magic)
+    if magic:
+        ctx.label("observe-decorated-magic-names")
     if case.get("sub_defaults"):
         ctx.label("subclass-overriding-defaults")
     o = cls()
@@ -256,6 +274,8 @@ def run(case, ctx):
             ol1 = len(by.pop("ol1", []))
             ol2 = len(by.pop("ol2", []))
             mechs = () if (bare and nm in BARE) else ("static", "otc", "obs") if bare else ("static", "any", "otc", "obs")
+            if magic and nm in MAGIC:
+                mechs = tuple("magic" if m == "static" else m for m in mechs)
             if set(by) - set(mechs):
                 ctx.fail("count/unregistered-mechanism", "handlers %r were called but are not registered for %s: %s" % (sorted(by), nm, what))
             counts = {m: len(by.get(m, [])) for m in mechs}
